@@ -607,6 +607,62 @@ def step (s : State) : Op → State × Out
     | none => (s, badOp)
   | .dropAll => (dropAllFrom (sortedKeys s.slots) s, ok)
 
+/-! ## comparison, hashing and formatting through handles
+
+`PartialEq` / `PartialOrd` / `Ord` / `Hash` / `Debug` of every handle type take `&self`: they borrow
+(ThinArc: a transient `ManuallyDrop<Arc<..>>` via `with_arc`; ArcUnion: `borrow()`; OffsetArc: `Deref`)
+and forward to the payload's impl.  In the model they are therefore **not a `step`** at all: they
+produce an answer from the memory and leave the state as it is, also when the payload's impl panics.
+The correspondence (`cmp a b` lines) checks exactly that on the real code: identical state line
+afterwards, no events, the answers below. -/
+
+/-- handle types whose comparison the correspondence exercises -/
+def cmpApplies (h : HV) : Bool :=
+  match h.kind, h.ty with
+  | .arc, .sized | .arc, .sizedB | .arc, .slice | .arc, .hs | .arc, .hwl => true
+  | .thin, _ | .offset, _ | .unionA, _ | .unionB, _ => true
+  | _, _ => false
+
+/-- only `Arc<T>` and `ThinArc` offer an ordering -/
+def cmpOrdered (h : HV) : Bool := h.kind = .arc || h.kind = .thin
+
+/-- what a comparison sees through `h`, in the order the derived impls compare: header, the slice
+elements, and last the recorded length (`HeaderWithLength`; equal to the slice length on every handle
+built by the safe constructors) -/
+def cmpKey (m : Mem) (h : HV) : List Nat × List Nat × Option Nat :=
+  match m.blocks[h.blk]? with
+  | none => ([], [], none)
+  | some k => ((k.hdr.toList.map (·.val)), ((k.elems.take (viewLen m h)).filterMap fun e => e.map (·.val)),
+               if h.ty = .hwl then k.recLen else none)
+
+def lexCmp : List Nat → List Nat → Ordering
+  | [], [] => .eq
+  | [], _ :: _ => .lt
+  | _ :: _, [] => .gt
+  | a :: as, b :: bs => if a < b then .lt else if b < a then .gt else lexCmp as bs
+
+def keyCmp (x y : List Nat × List Nat × Option Nat) : Ordering :=
+  match lexCmp x.1 y.1 with
+  | .eq => match lexCmp x.2.1 y.2.1 with
+    | .eq => compare (x.2.2.getD 0) (y.2.2.getD 0)
+    | o => o
+  | o => o
+
+def showOrd : Ordering → String | .lt => "lt" | .eq => "eq" | .gt => "gt"
+
+/-- `a == b`, `a.partial_cmp(&b)` for the handles in slots `a`, `b` (same handle type; the two
+variants of a union compare unequal) -/
+def cmpAnswer (s : State) (a b : Nat) : Out :=
+  match lookup s a, lookup s b with
+  | some x, some y =>
+    let union (k : Kind) := k = .unionA || k = .unionB
+    if cmpApplies x && ((x.kind = y.kind && x.ty = y.ty) || (union x.kind && union y.kind)) then
+      let eq := x.kind = y.kind && cmpKey s.mem x == cmpKey s.mem y
+      let pc := if cmpOrdered x then showOrd (keyCmp (cmpKey s.mem x) (cmpKey s.mem y)) else "-"
+      ok s!"eq={eq};pc={pc};cons=true"
+    else badOp
+  | _, _ => badOp
+
 def run (ops : List Op) : State := ops.foldl (fun s o => (step s o).1) State.init
 
 end M1
